@@ -600,6 +600,8 @@ class SimQueue:
 
     def put(self, item, block=True, timeout=None):
         sim = cur()
+        if block and timeout is not None and timeout < 0 and self.maxsize > 0:
+            raise ValueError("'timeout' must be a non-negative number")
         if self.full():
             if not block:
                 raise SimFull
@@ -614,11 +616,12 @@ class SimQueue:
 
     def get(self, block=True, timeout=None):
         sim = cur()
+        if block and timeout is not None and timeout < 0:
+            # like queue.Queue: checked before looking at the content
+            raise ValueError("'timeout' must be a non-negative number")
         if not self._items:
             if not block:
                 raise SimEmpty
-            if timeout is not None and timeout < 0:
-                raise ValueError("'timeout' must be a non-negative number")
             if not sim.wait_for(lambda: bool(self._items), timeout, self._getters):
                 raise SimEmpty
         item = self._pop()
